@@ -92,6 +92,15 @@ LOOKALIKES = [0, False, 0.0, 1, True, 1.0, "", [], {}, None, "0", "1", [0],
               [False], [1], [True], {"a": 1}, {"a": True}, {"a": 0},
               {"a": False}, [[1]], [[True]]]
 
+def reordered(v):
+    """The same JSON value with the members of every object in reverse order."""
+    if isinstance(v, dict):
+        return {k: reordered(v[k]) for k in reversed(list(v))}
+    if isinstance(v, list):
+        return [reordered(x) for x in v]
+    return v
+
+
 def counted_strings(n):
     """Strings of exactly n code points whose length under other measures differs: combining sequences (NFC
     shortens), characters that NFC expands, astral characters (2 UTF-16 units), wide UTF-8."""
